@@ -134,6 +134,7 @@ type harnessSummary struct {
 
 func (c *checker) run(id string) int {
 	t0 := time.Now()
+	loadMeta(c.verif)
 	seed, _ := strconv.ParseInt(os.Getenv("VERIF_SEED"), 10, 64)
 	prog, err := c.load()
 	if err != nil {
